@@ -55,6 +55,8 @@ def run(tier, work):
                               env={"VERIF_OUT": out, "VERIF_IN": simdir, "VERIF_N": 400 if thorough else 60,
                                    "VERIF_SEED": vlib.seed()})
     if rc != 0:
+        if vlib.code_panic(o):
+            raise vlib.CodePanic(vlib.code_panic(o), o)
         raise vlib.MachineryError("wheel harness failed rc=%s:\n%s" % (rc, (o or "")[-3000:]))
     # 4. validate
     total_div = 0
@@ -107,6 +109,11 @@ def run(tier, work):
                 x[0] = "C04"
         storelib.report(v, work, "C04", tf2, res2)
     traces += store_traces
+    # 6. entries restored by LoadCache: after each clean load the clock passes the earliest restored deadline and the
+    #    wheel is advanced twice as the ticker does (PersistTrace "reclaim" lines)
+    import persistcheck
+    pres, _ = persistcheck.trace_part(work, v, "C04", 80 if thorough else 12, 0, {})
+    traces += pres["traces"]
     cov = {"states": states, "transitions": trans, "traces_validated_against_impl": traces, "store_level_traces": store_traces,
            "behaviours_replayed": nbeh, "advance_steps_validated": advances,
            "model_divergences": total_div, "samples": samples, "exhaustive": True,
@@ -118,6 +125,7 @@ def run(tier, work):
     vlib.write_evidence("C04", tier, "model_checking", cov,
                         ["TLC explores the scaled geometry exhaustively; the real geometry is covered by the "
                          "boundary-value driver and trace validation only",
-                         "advance times are supplied explicitly (wheel level); the ticker period is covered by the store-level checks"],
+                         "advance times are supplied explicitly (wheel level); the ticker period is covered by the store-level checks",
+                         "restored entries: saved caches with TTLs on several wheel levels are loaded after 0 s .. 3 h of down time, then two ticks 1.1 s and 2.2 s after the earliest restored deadline must have reclaimed everything due 2.1 s before the second"],
                         time.time() - t0, len(v.violations))
     return rcode
